@@ -109,6 +109,7 @@ func mtqueriesMain(args []string) int {
 	fs := flag.NewFlagSet("mtqueries", flag.ExitOnError)
 	in := fs.String("in", "", "TLC log")
 	out := fs.String("out", "", "report")
+	corpus := fs.String("corpus", "", "corpus directory: every sample is detected and the C15 clauses on results and their ancestors are evaluated")
 	fs.Parse(args)
 	rep := newReport("mtqueries")
 	tree := mimetype.VerifTree()
@@ -201,6 +202,28 @@ func mtqueriesMain(args []string) int {
 	rep.Evaluations = n
 	rep.Nontrivial = negatives + int64(ops["eq"])
 	mimetype.VerifResetTree()
+	var corpusResults, withAliasedAncestor int64
+	if *corpus != "" {
+		reg := registeredSet()
+		_, data := loadCorpus(*corpus)
+		for _, d := range data {
+			for _, lim := range []uint32{3072, 0} {
+				mimetype.SetLimit(lim)
+				m := mimetype.Detect(exact(d))
+				c02Check(rep, m, nil, d, int64(lim), reg)
+				corpusResults++
+				for p := m.Parent(); p != nil; p = p.Parent() {
+					if node := findNode(baseType(p.String()), p.Extension()); node != nil && len(mimetype.VerifAliases(node)) > 0 {
+						withAliasedAncestor++
+						break
+					}
+				}
+			}
+		}
+		mimetype.SetLimit(3072)
+	}
+	rep.Extra["corpus_results_checked"] = corpusResults
+	rep.Extra["results_with_an_aliased_ancestor"] = withAliasedAncestor
 	rep.Extra["late_registrations"] = late
 	rep.Extra["queries"] = n
 	rep.Extra["by_op"] = ops
